@@ -21,7 +21,7 @@ Qed.
 
 Lemma ro_no_tie : run_no_tie QIF Qc qi_nrm Qcmult Qc_ltb 0%Qc scale_recip LuGen.ex_a 3.
 Proof.
-  intros t Ht i i' Hi Hi' Hne.
+  intros t Ht i i' Hi Hi' Hne _ _.
   destruct t as [|[|[|t]]]; try lia;
   destruct i as [|[|[|i]]]; try lia; destruct i' as [|[|[|i']]]; try lia;
   first [left; vm_compute; reflexivity | right; vm_compute; reflexivity].
@@ -75,4 +75,55 @@ Proof.
   - split; [reflexivity|repeat constructor].
   - exact LuPivot.ex_d_nz.
   - exact LuPivot.ex_pivots_nz.
+Qed.
+
+(* ---------- a DIAGONAL matrix: det <> 0, the permutation and no-tie discharged TOGETHER ----------
+   diag(50, 75, 100), the uncoupled Z matrix of a 3-port: in every column all candidates but one are zero (they
+   tie at metric 0, which the premise allows); rows permuted [2,0,1]. *)
+Definition dg_a : mat QIF := [[qz 50; qz 0; qz 0]; [qz 0; qz 75; qz 0]; [qz 0; qz 0; qz 100]].
+Definition dg_a' : mat QIF := perm_rows QIF [2%nat; 0%nat; 1%nat] dg_a.
+Definition dg_b' : mat QIF := perm_rows QIF [2%nat; 0%nat; 1%nat] ro_b.
+Lemma dg_a_wf : wf 3 3 dg_a.
+Proof. split; [reflexivity|repeat constructor]. Qed.
+Lemma dg_a'_wf : wf 3 3 dg_a'.
+Proof. split; [reflexivity|repeat constructor]. Qed.
+
+Lemma dg_no_tie : run_no_tie QIF Qc qi_nrm Qcmult Qc_ltb 0%Qc scale_recip dg_a 3.
+Proof.
+  intros t Ht i i' Hi Hi' Hne Hp Hp'.
+  destruct t as [|[|[|t]]].
+  all: try (exfalso; clear - Ht; lia).
+  all: destruct i as [|[|[|i]]].
+  all: try (exfalso; clear - Hi; lia).
+  all: destruct i' as [|[|[|i']]].
+  all: try (exfalso; clear - Hi'; lia).
+  all: try (exfalso; clear - Hne; lia).
+  all: exfalso.
+  all: first [ match type of Hp with ?X = true => assert (E : X = false) by (vm_compute; reflexivity) end;
+               exact (Bool.diff_false_true (eq_trans (eq_sym E) Hp))
+             | match type of Hp' with ?X = true => assert (E : X = false) by (vm_compute; reflexivity) end;
+               exact (Bool.diff_false_true (eq_trans (eq_sym E) Hp')) ].
+Qed.
+
+Lemma dg_det_nz : det_lap QIF 3 dg_a <> @c0 QIF.
+Proof. apply qi_neqb. vm_compute. reflexivity. Qed.
+
+Example ex_row_order_diagonal :
+  map ro_sg (lu_pivots QIF Qc (q2_lu_recip dg_a' 3)) = lu_pivots QIF Qc (q2_lu_recip dg_a 3) /\
+  lu_pivots QIF Qc (q2_lu_recip dg_a' 3) <> lu_pivots QIF Qc (q2_lu_recip dg_a 3) /\
+  (forall i c, i < 3 -> c < 3 ->
+     mget QIF (lu_a QIF Qc (q2_lu_recip dg_a' 3)) i c = mget QIF (lu_a QIF Qc (q2_lu_recip dg_a 3)) i c) /\
+  fst (q2_mldivide_recip dg_a' dg_b' 3 2) = fst (q2_mldivide_recip dg_a ro_b 3 2).
+Proof.
+  assert (Hsg : forall i, i < 3 -> ro_sg i < 3) by (intros [|[|[|i]]] H; cbn; lia).
+  assert (Hts : forall i, i < 3 -> ro_ts i < 3) by (intros [|[|[|i]]] H; cbn; lia).
+  assert (H1 : forall i, i < 3 -> ro_ts (ro_sg i) = i) by (intros [|[|[|i]]] H; cbn; lia).
+  assert (H2 : forall i, i < 3 -> ro_sg (ro_ts i) = i) by (intros [|[|[|i]]] H; cbn; lia).
+  assert (Hr : forall i c, i < 3 -> c < 3 -> mget QIF dg_a' i c = mget QIF dg_a (ro_sg i) c).
+  { intros [|[|[|i]]] c H _; try lia; reflexivity. }
+  destruct (row_order_independent_no_tie QIF Qc qi_nrm Qcmult Qc_ltb 0%Qc scale_recip qc_ltM_irrefl qc_ltM_trans
+              qc_ltM_cotrans qc_mulM_pos qc_mulM_zero_r qi_nrm2_zero qi_nrm2_pos qc_scale_pos qi_zero_dec
+              3 ro_sg ro_ts Hsg Hts H1 H2 dg_a dg_a' dg_a_wf dg_a'_wf Hr dg_no_tie dg_det_nz) as (E1 & E2 & E3).
+  split; [exact E1|]. split; [vm_compute; discriminate|]. split; [exact E2|].
+  apply (E3 2 ro_b dg_b'). intros [|[|[|i]]] k H _; try lia; reflexivity.
 Qed.
